@@ -81,9 +81,10 @@ def replayLine (L : Lang) (nm : Nat → String) (starts : Array Nat) (root : Tre
     s.gateEvent L nm .firstLeaf ((r.splitOn ", first_leaf_symbol:").headD "")
   else if let some r := afterPrefix line "reuse_node symbol:" then s.gateEvent L nm .reuse r
   else if let some r := afterPrefix line "state_mismatch sym:" then s.stateMismatch nm r
-  else if line.startsWith "breakdown_top_of_stack " then { s with state := none }
+  else if line.startsWith "breakdown_top_of_stack " then { s with state := none, stateKnown := false }
+  else if line.startsWith "reduce " then { s with stateKnown := false }
   else if line.startsWith "shift state:" || line == "shift_extra" then s.shift
-  else if line.startsWith "lexed_lookahead " then { s with lexed := s.lexed + 1 }
+  else if line.startsWith "lexed_lookahead " then { s with lexed := s.lexed + 1, relexed := s.relexed || s.didReuse }
   else s
 
 def runCase (s : St) : String :=
@@ -95,10 +96,14 @@ def runCase (s : St) : String :=
     let L := ld.toLang
     let starts := lineStarts s.text2
     let rs := s.log.foldl (replayLine L ld.symName starts o.root) ({ colFix := s.colFix } : RS)
+    -- diagnosis for known finding C01-eof-lookahead-range-added: a range difference starts at or
+    -- after the end of the old tree's last included range (tokens that peeked the old end of input)
+    let oldEnd := o.ranges.foldl (fun m r => max m r.end_byte) 0
+    let beyond := rs.diffs.any (fun d => d.1 ≥ oldEnd)
     let corr := match rs.fail with
       | none => "ok"
       | some m => "DIFF " ++ m
-    s!"{s.id} judge={j} corr={corr} clean={if clean then 1 else 0} gate={rs.gate} match={rs.matched} undet={rs.undet} refusals={rs.refusals} reused_inner={rs.reusedInner} reused_leaf={rs.reusedLeaf} reused_bytes={rs.reusedBytes} lexed={rs.lexed} nodes={i.root.size} rangediffs={rs.diffs.size} coldep={if rs.coldepSeen then 1 else 0}"
+    s!"{s.id} judge={j} corr={corr} clean={if clean then 1 else 0} gate={rs.gate} match={rs.matched} undet={rs.undet} bd={rs.bdChecked} index_skipped={rs.indexSkipped} refusals={rs.refusals} reused_inner={rs.reusedInner} reused_leaf={rs.reusedLeaf} reused_bytes={rs.reusedBytes} lexed={rs.lexed} nodes={i.root.size} rangediffs={rs.diffs.size} coldep={if rs.coldepSeen then 1 else 0} diff_beyond_old_end={if beyond then 1 else 0}"
   | none, _, _, _ => s!"{s.id} judge=BADINPUT corr=BADINPUT no tables for language {s.lang}"
   | _, _, _, _ => s!"{s.id} judge=BADINPUT corr=BADINPUT unreadable dump"
 
